@@ -79,6 +79,19 @@ Theorem C12_counts : forall a c ra rb rc R, a_cell a = Some c -> WF a ->
 Proof. exact replicate_counts. Qed.
 Print Assumptions C12_counts.
 
+(* pointwise: atom number q*N + v of the result (q-th multiplier triple, v-th original atom) is the original atom v translated by that
+   triple's lattice vector, with the same type id, charge and group, and the type id resolves to the same element, mass, label and pair
+   coefficients as in the original *)
+Theorem C12_atom_by_atom : forall a c r, a_cell a = Some c -> atoms_sized a ->
+  exists R, replicate a r = Some R /\
+  forall q v, q < length (all_mults r) -> v < natoms a ->
+    let i := q * natoms a + v in
+    nth i (a_pos R) (0, 0, 0)%Z = vadd (nth v (a_pos a) (0, 0, 0)%Z) (offs_vec c (nth q (all_mults r) (0, 0, 0))) /\
+    nth i (a_typ R) 0 = nth v (a_typ a) 0 /\ nth i (a_chg R) 0%Z = nth v (a_chg a) 0%Z /\ nth i (a_grp R) 0%Z = nth v (a_grp a) 0%Z /\
+    element_of R i = element_of a v /\ mass_of R i = mass_of a v /\ label_of R i = label_of a v /\ pair_of R i = pair_of a v.
+Proof. exact replicate_pointwise. Qed.
+Print Assumptions C12_atom_by_atom.
+
 (* before fix D3 the cell was scaled column-wise; the row-wise model differs from it on a tilted cell with unequal factors *)
 Example C12_column_scaling_is_wrong :
   let c := ((10, 0, 0), (2, 9, 0), (1, 3, 8))%Z in
